@@ -7,6 +7,7 @@
 
 import cbor2
 import logging
+from collections.abc import Mapping
 
 log = logging.getLogger(__name__)
 
@@ -51,6 +52,9 @@ def main(
     """
     with open(input_envelope, "rb") as fh:
         envelope = cbor2.load(fh)
+    if isinstance(envelope, cbor2.CBORTag) and isinstance(envelope.value, Mapping):
+        # Recent cbor2 releases decode the content of a tag into an immutable mapping.
+        envelope = cbor2.CBORTag(envelope.tag, dict(envelope.value))
     extracted_payload = envelope.value.pop(payload_name, None)
 
     if extracted_payload is None:
